@@ -158,6 +158,7 @@ type Exec struct {
 	asciiKnown     map[*Term]bool
 	clockLog       []*Term
 	realClockReads int
+	opaqueIPs      int
 	rawInit        bool
 	deadline       time.Time
 	blockTicks     int
